@@ -3,7 +3,7 @@ import ast
 
 from sa.model import AnalysisError, norm, spec_text, walk_no_nested
 from sa.roles import ReaderRoles, SPEC_IDS, spec_follow, spec_doc_tree
-from sa.harness import ReaderHarness, Script
+from sa.harness import ReaderHarness, Script, history_to, history_ending_in
 from sa.values import concrete, is_concrete, Unk
 from sa import rx as RX
 from sa import models as M
@@ -152,15 +152,13 @@ def run(P, rep, tier):
     ids = sorted(ids | set(SPEC_IDS))
     rep.extra['candidate_ids'] = ids
 
-    var, callnode = allowed_var(R)
-    loop = main_loop(R) if var is not None else None
+    var, loop = None, None          # previous-id states are reached through real histories, not loop-state injection
     global _CTX
     _CTX = (P, R, table, var, loop)
     tasks = [('R1', None, X) for X in ids]
-    if var is not None:
-        tasks += [('R2', Pid, X) for Pid in SPEC_IDS for X in ids]
-        tasks += [('R3', None, X) for X in SPEC_IDS]
-        tasks += [('R6', None, X) for X in SPEC_IDS]
+    tasks += [('R2', Pid, X) for Pid in SPEC_IDS for X in ids]
+    tasks += [('R3', None, X) for X in SPEC_IDS]
+    tasks += [('R6', None, X) for X in SPEC_IDS]
     from sa.par import pmap
     results = dict(zip(tasks, pmap(_task, tasks)))
     total_paths = sum(r['paths'] for r in results.values())
@@ -191,11 +189,6 @@ def run(P, rep, tier):
                       '(ids: %s)' % (bad_set[0][1], [x for x, _ in bad_set][:8]),
                       path=[R.entry.short, R.header_fn.short], witness=[x for x, _ in bad_set])
     r1_bad = bool(bad_accept or bad_set)
-    if var is None:
-        if r1_bad:
-            rep.info('allowed-set variable not identifiable; R2/R3 skipped because R1 already fails')
-            return
-        raise AnalysisError('cannot identify the allowed-set argument of the header call in %s' % R.entry.short)
 
     r2 = rep.rule('C10-R2', 'from the state after id P a header X is yielded iff X in table[P], and only after '
                   'the membership test against table[P]', reference=len(SPEC_IDS) * len(ids))
@@ -281,6 +274,13 @@ def _task(t):
     return r
 
 
+def _history(table, ids):
+    if ids is None:
+        raise AnalysisError('no legal history found in the transition table')
+    from sa.props.reader_rules import CONTENT_IDS
+    return [Script(s_, options='unknown' if (s_ in CONTENT_IDS or s_ == 'diffx') else 'none') for s_ in ids]
+
+
 def _task_inner(t):
     kind, Pid, X = t
     P, R, table, var, loop = _CTX
@@ -289,9 +289,8 @@ def _task_inner(t):
         # empty class-level mappings are extension hooks a subclass may fill: explored open, for the
         # shared-table rule only (the order rules speak about the class as written)
         H.open_hooks = tuple(c.qualname for c in R.cls.repo_mro())
-        preds = [p for p in SPEC_IDS if X in table.get(p, ())]
-        row = frozenset(['diffx']) if X == 'diffx' else frozenset(table[preds[0]])
-        paths, exceeded = H.paths([Script(X, options='unknown')], inject=(loop, lambda I: {var: row}), max_paths=3000)
+        pre = _history(table, history_to(table, X))
+        paths, exceeded = H.paths(pre + [Script(X, options='unknown')], max_paths=3000, det_prefix=len(pre))
         return {'paths': len(paths), 'exceeded': False, 'shared_mut': _shared_mutations(paths)}
     if kind == 'R1':
         paths, exceeded = H.paths([Script(X, options='unknown' if X == 'diffx' else 'none')])
@@ -305,16 +304,23 @@ def _task_inner(t):
     if kind == 'R2':
         row = frozenset(table.get(Pid, ()))
         legal = X in row
-        paths, exceeded = H.paths([Script(X, options='unknown' if legal else 'none')],
-                                  inject=(loop, lambda I: {var: row}))
+        # the state in which the previous id is Pid: after the shortest legal history ending in Pid
+        pre = _history(table, history_ending_in(table, Pid))
+        nh = len(pre)
+        paths, exceeded = H.paths(pre + [Script(X, options='unknown' if legal else 'none')], det_prefix=nh)
+        if not paths:
+            raise AnalysisError('no feasible path through the history %s' % [s_.sid for s_ in pre])
         accepted = False
         undominated = False
         for path in paths:
-            ys = [i for i, e in enumerate(path.events) if e.kind == 'yield']
+            hd = [i for i, e in enumerate(path.events) if e.kind == 'k1-header' and e.data['index'] == nh]
+            if not hd:
+                continue
+            ys = [i for i, e in enumerate(path.events) if e.kind == 'yield' and i > hd[0]]
             if ys:
                 accepted = True
                 ok = False
-                for e in path.events[:ys[0]]:
+                for e in path.events[hd[0]:ys[0]]:
                     if e.kind == 'membership' and is_concrete(e.data['left']) and concrete(e.data['left']) == X \
                             and setval(e.data['right']) == row:
                         ok = True
@@ -326,18 +332,18 @@ def _task_inner(t):
         preds = [p for p in SPEC_IDS if X in table.get(p, ())]
         if not preds and X != 'diffx':
             return {'paths': 0, 'skipped': True}
-        row0 = frozenset(['diffx']) if X == 'diffx' else frozenset(table[preds[0]])
         want = frozenset(table.get(X, ()))
         X2 = sorted(want)[0] if want else 'diffx'
-        paths, exceeded = H.paths([Script(X, options='unknown'), Script(X2, options='none')],
-                                  inject=(loop, lambda I: {var: row0}))
+        pre = _history(table, history_to(table, X))
+        nh = len(pre)
+        paths, exceeded = H.paths(pre + [Script(X, options='unknown'), Script(X2, options='none')], det_prefix=nh)
         seen = set()
         reached = 0
         for path in paths:
-            hdrs = [i for i, e in enumerate(path.events) if e.kind == 'k1-header']
-            if len(hdrs) < 2:
+            hdrs = [i for i, e in enumerate(path.events) if e.kind == 'k1-header' and e.data['index'] == nh + 1]
+            if not hdrs:
                 continue
-            for e in membership_events(path, X2, hdrs[1]):
+            for e in membership_events(path, X2, hdrs[0]):
                 reached += 1
                 seen.add(_setstr(e.data['right'], e.node))
         return {'paths': len(paths), 'exceeded': exceeded, 'seen': sorted(seen), 'reached': reached}
